@@ -61,6 +61,19 @@ Example C16_graph_nontrivial :
   Nat.leb 170 (List.length writer_params) = true /\ T_dec = [].
 Proof. vm_compute. repeat split; reflexivity. Qed.
 
+(* The memory side of "does not reach the buffer", on the buffer model (Model/Buffer.v, tied to bytes.Buffer by the
+   "buf" correspondence slice): whatever a buffer does - write in place, slide its contents down, move to a new array -
+   it writes only to its own current array and frees nothing, so a value held in any OTHER array (a string conversion, a
+   make+copy, a binary.Read result: the non-sharing edges of the graph above) reads the same afterwards.  A window of
+   the buffer's own array (the result of Next or Bytes) does not have that guarantee: Mutants/RetainedSlice.v. *)
+From FP.Model Require Buffer.
+From FP.Theory Require BufferRefine.
+Theorem C16_buffer_writes_only_its_own_array : forall nc h b bs h' b' a,
+  BufferRefine.WF h b -> Buffer.write nc h b bs = Some (h', b') ->
+  (a < List.length h)%nat -> a <> Buffer.arr b -> Buffer.get h' a = Buffer.get h a.
+Proof. exact BufferRefine.write_frame. Qed.
+
+Print Assumptions C16_buffer_writes_only_its_own_array.
 Print Assumptions C16_decoded_values_do_not_reach_the_buffer.
 Print Assumptions C16_buffer_mutation_invisible.
 Print Assumptions C16_buffer_does_not_reach_the_message.
